@@ -64,6 +64,8 @@ def explore_world(task):
         return explore_state_mode(task)
     if task[0] == "message-shapes":
         return explore_message_shapes(task)
+    if task[0] == "rail-variables":
+        return explore_rail_variables(task)
     if str(task[0]).startswith("2.x"):
         from vf.props import c01_v2
         return c01_v2.explore_world(task)
@@ -266,6 +268,61 @@ def explore_state_mode(task):
 
 
 
+# ----------------------------------------------------------------------------- rail bodies that use ordinary variable names
+RAIL_BODY_VARIABLES = ("i", "j", "n", "input_flows", "triggered_input_rail", "allowed", "result", "event")
+
+
+def explore_rail_variables(task):
+    """The first configured rail is an ordinary rail whose body keeps a value of its own in a context variable with an
+    everyday name (a counter `$i`, a flag ...).  The second configured rail still has to see the message, and its
+    rejection ends the turn: the runner of the rails must not depend on names a rail body may use."""
+    _tag, var, side = task
+    res = {"worlds": 1, "turns": 0, "conversations": 0, "rejections": 0, "rewrites": 0, "llm_calls": 0, "rail_calls": 0, "viol": []}
+    text_var = "$user_message" if side == "input" else "$bot_message"
+    first = f"""
+define flow first rail
+  ${var} = 7
+  $r = execute verif_rail(rail="{'in1' if side == 'input' else 'out1'}", text={text_var})
+  if not $r
+    bot refuse first
+    stop
+
+define bot refuse first
+  "REFUSED-first"
+"""
+    second = rw.v1_rail("in2" if side == "input" else "out2", side)
+    yaml = "rails:\n  " + side + ":\n    flows:\n      - first rail\n      - " + ("in2" if side == "input" else "out2") + "\n"
+    from vf.engines.world import World
+    try:
+        world = World(first + second, yaml)
+    except Exception as e:
+        res["viol"].append((f"world-rejected:v1:rail-variable:{var}", repr(e), {"task": list(task)}))
+        return res
+    a, b = ("in1", "in2") if side == "input" else ("out1", "out2")
+    n = 0
+    for v2 in ("A", "R"):
+        n += 1
+        u = f"URV{n}{var}q hello"
+        turn = rw.run_turn(world, [{"role": "user", "content": u}], {a: "A", b: v2}, llm_fn_for("general"))
+        res["turns"] += 1
+        res["conversations"] += 1
+        info = {"engine": "E3-world", "prop": "C01", "version": "1.0", "mode": "rail-variables", "variable": var, "side": side, "second_rail_verdict": v2}
+        if turn.exc is not None:
+            res["viol"].append((f"generate-raised:v1:rail-body-assigns-${var}:{side}", repr(turn.exc), info))
+            continue
+        calls = [x["rail"] for x in turn.actions if x.get("rail") in (a, b)]
+        res["rail_calls"] += len(calls)
+        if calls != [a, b]:
+            res["viol"].append((f"{side}-rail-sequence:v1:rail-body-assigns-a-variable-of-the-runner:{side}",
+                                f"the first configured {side} rail assigns `${var} = 7` in its body; configured rails [first rail, {b}], invoked {calls}; reply {turn.text!r}", info))
+            continue
+        if v2 == "R":
+            res["rejections"] += 1
+            if turn.text != f"REFUSED-{b}":
+                res["viol"].append((f"reply-is-not-the-refusal:v1:rail-body-assigns-a-variable-of-the-runner:{side}", f"`${var}`: {b} rejected; reply {turn.text!r}", info))
+    return res
+
+
 # ----------------------------------------------------------------------------- message list shapes
 def explore_message_shapes(task):
     """The user message of the turn is not the last element of `messages`: it is followed by an `event` message (the shape
@@ -338,6 +395,9 @@ def tasks(tier):
     for dialog in (False, True):
         out.append(("state-mode", dialog, 2 if tier == "quick" else 3))
         out.append(("message-shapes", dialog))
+    for var in RAIL_BODY_VARIABLES:
+        for side in ("input", "output"):
+            out.append(("rail-variables", var, side))
     try:
         from vf.props import c01_v2
         out.extend(c01_v2.tasks(tier))
